@@ -16,6 +16,7 @@ import tempfile
 
 from .. import core, lean, pool
 from . import h5util as H
+from . import mfutil as MU
 
 ID = "C05"
 MOD = "harness.props.c05"
@@ -23,23 +24,112 @@ LEAN = dict(modules=["MetadorModel.Props.C05"],
             theorems=["MetadorModel.C05." + n for n in ['merge_identity', 'merge_defined', 'merge_continues_chain', 'merge_is_base', 'next_patch_follows_merged', 'merge_view', 'merge_single', 'merge_succeeds', 'merge_idempotent_on_view',
                                                                'merge_inv', 'merge_mentions', 'merge_followups_over',
                                                                'merge_followups_same_view', 'merge_followups_fold',
-                                                               'merge_same_update_partial', 'merge_same_update']]
+                                                               'merge_same_update_partial', 'merge_same_update',
+                                                               'coherent_ends', 'coherent_append', 'squash_coherent',
+                                                               'merge_refused_with_stub', 'merge_refused_when_writable', 'merge_allowed_iff']]
             + ["MetadorModel.Follow." + n for n in ['invLast_transfer', 'follow_same_view', 'view_fold_over', 'invB_sound']],
             drivers=["drv_mrg"])
 
 
 def _hashes(d):
-    out = {}
-    for fn in sorted(os.listdir(d)):
-        p = os.path.join(d, fn)
-        if os.path.isfile(p):
-            out[fn] = hashlib.sha256(open(p, "rb").read()).hexdigest()
-    return out
+    return MU.hashes(d)
 
 
 def _meta(rec):
     return [[str(u.record_uuid), u.patch_index, str(u.patch_uuid), str(u.prev_patch) if u.prev_patch else None,
              str(u.hdf5_hashsum) if u.hdf5_hashsum else None, sorted(u.ub_exts.keys())] for u in rec.ih5_meta]
+
+
+def ncont_of(case):
+    """number of committed containers of the source at the moment of the merge"""
+    return 1 + sum(1 for o in case["ops"] if o[0] == "patch") + (1 if case.get("pre") == "live" else 0)
+
+
+def squash_run(case):
+    """the run (i, j) of containers (0 = oldest) denoted by case["squash"] = [a, b], or None"""
+    sq = case.get("squash")
+    if not sq:
+        return None
+    n = ncont_of(case)
+    i = sq[0] % n
+    j = i + sq[1] % (n - i)
+    return i, j
+
+
+# merge targets, relative to a source record NAME in directory SRC (MERGED = directory of the
+# main merge, which already holds a record NAME)
+TARGETS = [
+    ["own", "="],          # the source's own record path: merge "in place"
+    ["own", "=file"],      # the path of the source's base container file
+    ["own", "prefix"],     # same directory, a name that is a prefix of the source name
+    ["own", "ext"],        # same directory, names that extend the source name
+    ["own", "ext-"],
+    ["own", "patchlike"],  # NAME.p1 (not a valid record name)
+    ["merged", "="],       # an existing OTHER record (the result of the first merge)
+    ["fresh", "="],        # a fresh directory, same name
+    ["fresh", "other"],    # a fresh directory, another name
+]
+
+
+def _target_name(name, how):
+    return {"=": name, "=file": name + ".ih5", "prefix": name[:-1] or "x", "ext": name + "x", "ext-": name + "-1",
+            "patchlike": name + ".p1", "other": "other"}[how]
+
+
+def _open_source(cls, src_dir, name, mode, how, files):
+    from pathlib import Path
+
+    if how == "list":
+        return cls([Path(p) for p in files], mode)
+    if how == "reversed":
+        return cls([Path(p) for p in reversed(files)], mode)
+    return cls(Path(src_dir) / name, mode)
+
+
+def _check_merged(cls, path_or_list, d0, m0, oracle, what, **kw):
+    """open a merged container on its own: one container, the source's view, the source's identity"""
+    try:
+        merged = cls(path_or_list, "r", **kw)
+    except Exception as e:  # noqa: BLE001
+        oracle.append(dict(kind="merged-record-does-not-open", error="%s: %s" % (type(e).__name__, str(e)[:160]), target=what))
+        return None, None
+    try:
+        dm = H.dump(merged)
+        mm = _meta(merged)
+    finally:
+        merged.close()
+    if len(mm) != 1:
+        oracle.append(dict(kind="merged-not-single-container", n=len(mm), target=what))
+    if dm != d0:
+        diff = sorted(p for p in set(dm) | set(d0) if dm.get(p) != d0.get(p))[:5]
+        oracle.append(dict(kind="merged-view-differs", paths=diff, merged=[dm.get(p) for p in diff], source=[d0.get(p) for p in diff], target=what))
+    # same record, same patch state, chain start inherited from the OLDEST merged container
+    if mm and (mm[0][0] != m0[-1][0] or mm[0][1] != m0[-1][1] or mm[0][2] != m0[-1][2] or mm[0][3] != m0[0][3] or mm[0][4] is None):
+        oracle.append(dict(kind="merged-userblock-wrong", merged=mm[0], source_last=m0[-1], source_first=m0[0], target=what))
+    return dm, mm
+
+
+def _source_unchanged(src, src_dir, d0, m0, h0, oracle, what):
+    """the source as seen through the still-open object and on disk; True iff unchanged"""
+    ok = True
+    try:
+        d1 = H.dump(src)
+        m1 = _meta(src)
+    except Exception as e:  # noqa: BLE001
+        oracle.append(dict(kind="source-view-changed-by-merge", error=type(e).__name__, target=what))
+        return False
+    h1 = _hashes(src_dir)
+    if d1 != d0:
+        oracle.append(dict(kind="source-view-changed-by-merge", target=what))
+        ok = False
+    if m1 != m0:
+        oracle.append(dict(kind="source-meta-changed-by-merge", before=m0[-1], after=m1[-1], target=what))
+        ok = False
+    changed = sorted(k for k in h0 if h0.get(k) != h1.get(k))
+    if changed:
+        oracle.append(dict(kind="source-files-changed-by-merge", changed=changed, gone=[k for k in changed if k not in h1], target=what))
+        ok = False
+    return ok
 
 
 def impl(case):
@@ -48,13 +138,13 @@ def impl(case):
     from metador_core.ih5.manifest import IH5MFRecord
 
     cls = IH5MFRecord if case["cls"] == "mf" else IH5Record
+    name = case.get("name") or "rec"
     tmp = tempfile.mkdtemp(prefix="vt-c05-")
     oracle, tags, out = [], [], []
     try:
         src_dir = os.path.join(tmp, "src")
         os.makedirs(src_dir)
-        rec = cls(Path(src_dir) / "rec", "w")
-        outcomes = []
+        rec = cls(Path(src_dir) / name, "w")
         ncont = 1
         for op in case["ops"]:
             if op[0] == "patch":
@@ -73,6 +163,7 @@ def impl(case):
         if os.path.exists(os.path.join(tmp, "early.ih5")):
             oracle.append(dict(kind="refused-merge-left-file"))
         rec.commit_patch()
+        files_built = [str(p) for p in rec.ih5_files]
         rec.close()
         if ncont >= 3:
             tags.append("containers>=3")
@@ -80,21 +171,24 @@ def impl(case):
             tags.append("has-delete")
 
         pre = case.get("pre")
+        how = case.get("src_open") or "name"
+        if how != "name":
+            tags.append("source-opened-by-file-list")
         if pre == "discard":
             # leave an uncommitted patch on disk, reopen, discard it, then merge from that handle
-            s1 = cls(Path(src_dir) / "rec", "r+")
+            s1 = cls(Path(src_dir) / name, "r+")
             H.apply_op(s1, ["set", "/zz-uncommitted", "i:1"])
             s1.close(commit=False)
-            src = cls(Path(src_dir) / "rec", "r+")
+            src = cls(Path(src_dir) / name, "r+")
             src.discard_patch()
             tags.append("merge-after-discard")
         elif pre == "live":
             # a handle that stays in use after the merge: r+ (adds an empty patch), commit it
-            src = cls(Path(src_dir) / "rec", "r+")
+            src = _open_source(cls, src_dir, name, "r+", how, files_built)
             src.commit_patch()
             tags.append("merge-from-live-handle")
         else:
-            src = cls(Path(src_dir) / "rec", "r")
+            src = _open_source(cls, src_dir, name, "r", how, files_built)
         if pre == "failed-commit":
             try:
                 src.commit_patch()
@@ -105,23 +199,46 @@ def impl(case):
         d0 = H.dump(src)
         m0 = _meta(src)
         h0 = _hashes(src_dir)
+        files0 = [str(p) for p in src.ih5_files]
         mdir = os.path.join(tmp, "merged")
         os.makedirs(mdir)
         try:
-            mfile = src.merge_files(Path(mdir) / "rec")
+            src.merge_files(Path(mdir) / name)
         except Exception as e:  # noqa: BLE001
             oracle.append(dict(kind="merge-of-committed-record-fails", error=type(e).__name__))
             src.close()
-            return dict(out=out + [H.show_dump(d0), "wf T", "err"], oracle=oracle, tags=tags, partial=True)
-        d1 = H.dump(src)
-        m1 = _meta(src)
-        h1 = _hashes(src_dir)
-        if d1 != d0:
-            oracle.append(dict(kind="source-view-changed-by-merge"))
-        if m1 != m0:
-            oracle.append(dict(kind="source-meta-changed-by-merge", before=m0[-1], after=m1[-1]))
-        if h1 != h0:
-            oracle.append(dict(kind="source-files-changed-by-merge", changed=sorted(k for k in set(h0) | set(h1) if h0.get(k) != h1.get(k))))
+            return dict(out=out + [H.show_dump(d0), "wf T", "ok", "err"], oracle=oracle, tags=tags, partial=True)
+        _source_unchanged(src, src_dir, d0, m0, h0, oracle, "fresh directory")
+
+        # merge targets of every kind, from the same still-open object: whatever the target names and
+        # whether or not the merge is refused, the source stays what it was; a merge that goes
+        # through yields the merged record
+        for ti, (where, hown) in enumerate(case.get("targets") or []):
+            tname = _target_name(name, hown)
+            tdir = src_dir if where == "own" else mdir if where == "merged" else os.path.join(tmp, "t%d" % ti)
+            os.makedirs(tdir, exist_ok=True)
+            what = "%s/%s" % (where, hown)
+            before = set(os.listdir(tdir))
+            is_self = where == "own" and hown in ("=", "=file")
+            err = None
+            try:
+                src.merge_files(Path(tdir) / tname)
+            except Exception as e:  # noqa: BLE001
+                err = e
+            tags.append("target:" + what + (":refused" if err is not None else ":merged"))
+            if not _source_unchanged(src, src_dir, d0, m0, h0, oracle, what):
+                # the source is damaged: nothing below makes sense any more
+                try:
+                    src.close()
+                except Exception:  # noqa: BLE001
+                    pass
+                return dict(out=out + [H.show_dump(d0), "wf T", "ok", "ok"], oracle=oracle, tags=tags, partial=True)
+            if err is None and not is_self and where != "merged":
+                _check_merged(cls, Path(tdir) / tname, d0, m0, oracle, what)
+            if where != "merged":
+                for f in set(os.listdir(tdir)) - before:
+                    os.remove(os.path.join(tdir, f))
+
         if pre == "live" and case.get("follow"):
             # keep using the same object: what it shows must be what a fresh object shows
             src.create_patch()
@@ -134,7 +251,7 @@ def impl(case):
             d_live = H.dump(src)
             src.commit_patch()
             src.close()
-            fresh = cls(Path(src_dir) / "rec", "r")
+            fresh = cls(Path(src_dir) / name, "r")
             d_fresh = H.dump(fresh)
             fresh.close()
             if d_live != d_fresh:
@@ -149,30 +266,26 @@ def impl(case):
             src.close()
         if _hashes(src_dir) != h0:
             oracle.append(dict(kind="source-files-changed-by-close-after-merge"))
-
+        # the source opened again is the same record
         try:
-            merged = cls(Path(mdir) / "rec", "r")
+            again = cls(Path(src_dir) / name, "r")
+            d_again, m_again, f_again = H.dump(again), _meta(again), [str(p) for p in again.ih5_files]
+            again.close()
+            if d_again != d0 or m_again != m0 or f_again != files0:
+                oracle.append(dict(kind="source-reopened-after-merge-differs", files=[os.path.basename(f) for f in f_again]))
         except Exception as e:  # noqa: BLE001
-            oracle.append(dict(kind="merged-record-does-not-open", error=type(e).__name__))
-            return dict(out=out + [H.show_dump(d0), "wf T", "ok"], oracle=oracle, tags=tags, partial=True)
-        dm = H.dump(merged)
-        mm = _meta(merged)
-        if len(mm) != 1:
-            oracle.append(dict(kind="merged-not-single-container", n=len(mm)))
-        if dm != d0:
-            diff = sorted(p for p in set(dm) | set(d0) if dm.get(p) != d0.get(p))[:5]
-            oracle.append(dict(kind="merged-view-differs", paths=diff, merged=[dm.get(p) for p in diff], source=[d0.get(p) for p in diff]))
-        # same record, same patch state, chain start inherited
-        if mm and (mm[0][0] != m0[-1][0] or mm[0][1] != m0[-1][1] or mm[0][2] != m0[-1][2] or mm[0][3] != m0[0][3] or mm[0][4] is None):
-            oracle.append(dict(kind="merged-userblock-wrong", merged=mm[0], source_last=m0[-1], source_first=m0[0]))
-        merged.close()
+            oracle.append(dict(kind="source-reopened-after-merge-differs", error="%s: %s" % (type(e).__name__, str(e)[:160])))
+
+        dm, mm = _check_merged(cls, Path(mdir) / name, d0, m0, oracle, "fresh directory")
+        if dm is None:
+            return dict(out=out + [H.show_dump(d0), "wf T", "ok", "ok"], oracle=oracle, tags=tags, partial=True)
         # "wf T": the hypothesis ViewReplayable of the Lean theorems must hold for every reachable record
-        out += [H.show_dump(d0), "wf T", "ok", "n %d" % len(mm), H.show_dump(dm)]
+        out += [H.show_dump(d0), "wf T", "ok", "ok", "n %d" % len(mm), H.show_dump(dm)]
 
         # follow-up patches created on the source apply to the merged container
         follow = case.get("follow") or []
         if follow:
-            s2 = cls(Path(src_dir) / "rec", "r+")
+            s2 = cls(Path(src_dir) / name, "r+")
             nfiles_before = len(m0)  # committed containers before the follow-up (r+ has already added one)
             fout = ["ok"]
             for op in follow:
@@ -191,15 +304,19 @@ def impl(case):
                 shutil.copy(p, mdir)
                 if os.path.exists(p + "mf.json"):
                     shutil.copy(p + "mf.json", mdir)
+            # ... and drop them from the source directory again (the stages below start from h0)
+            for f in sorted(os.listdir(src_dir)):
+                if f not in h0:
+                    os.remove(os.path.join(src_dir, f))
             try:
-                m2 = cls(Path(mdir) / "rec", "r")
+                m2 = cls(Path(mdir) / name, "r")
                 dm2 = H.dump(m2)
                 # merging again (merged container + follow-up patches): still the same record state
                 rdir = os.path.join(tmp, "remerged")
                 os.makedirs(rdir)
                 try:
-                    m2.merge_files(Path(rdir) / "rec")
-                    m3 = cls(Path(rdir) / "rec", "r")
+                    m2.merge_files(Path(rdir) / name)
+                    m3 = cls(Path(rdir) / name, "r")
                     mm2, mm3, dm3 = _meta(m2), _meta(m3), H.dump(m3)
                     m3.close()
                     if dm3 != dm2:
@@ -216,34 +333,98 @@ def impl(case):
                     oracle.append(dict(kind="followup-patches-differ-on-merged", paths=diff))
             except Exception as e:  # noqa: BLE001
                 oracle.append(dict(kind="followup-patches-rejected-on-merged", error="%s: %s" % (type(e).__name__, str(e)[:200])))
+                return dict(out=out, oracle=oracle, tags=tags, partial=True)
             tags.append("follow-up")
 
-        # refused when the set contains a stub
-        if case["cls"] == "mf" and case.get("stub"):
-            last = sorted(f for f in os.listdir(src_dir) if f.endswith(".ih5"))
-            src3 = cls(Path(src_dir) / "rec", "r")
-            mfpath = str(src3.ih5_files[-1]) + "mf.json"
-            src3.close()
-            sdir = os.path.join(tmp, "stub")
-            os.makedirs(sdir)
-            stub = IH5MFRecord.create_stub(Path(sdir) / "rec", Path(mfpath))
+        # a RUN of containers (file list, `allow_baseless=True` when it does not start at the base)
+        # is a source like any other: merged view, identity (prev_patch of the OLDEST merged
+        # container), source untouched; the patches that follow the run apply to the merged
+        # container, and the merged container is accepted in place of the run inside the chain
+        run = squash_run(case)
+        if run is not None:
+            i, j = run
+            n = len(files0)
+            assert n == ncont_of(case), (n, ncont_of(case))
+            pre_f, run_f, post_f = files0[:i], files0[i:j + 1], files0[j + 1:]
+            sq_out = ["ok", "ok"] if pre == "live" else ["ok"]  # model lines: restore (+ patch for the live handle's empty patch)
+            P = lambda fs: [Path(f) for f in fs]  # noqa: E731
+            what = "run %d..%d of %d" % (i, j, n)
+            part = cls(P(run_f), "r", allow_baseless=True)
+            d_part, m_part = H.dump(part), _meta(part)
+            qdir = os.path.join(tmp, "squash")
+            os.makedirs(qdir)
             try:
-                stub.merge_files(Path(tmp) / "stubmerged")
-                oracle.append(dict(kind="merge-of-stub-not-refused"))
-            except ValueError:
-                pass
-            stub.close()
+                sq = str(part.merge_files(Path(qdir) / name))
+            except Exception as e:  # noqa: BLE001
+                oracle.append(dict(kind="merge-of-committed-record-fails", error=type(e).__name__, target=what))
+                part.close()
+                return dict(out=out + sq_out + ["err"], oracle=oracle, tags=tags, partial=True)
+            ok = _source_unchanged(part, src_dir, d_part, m_part, h0, oracle, what)
+            part.close()
+            _check_merged(cls, P([sq]), d_part, m_part, oracle, what, allow_baseless=True)
+            tags.append("run-merged" + ("-baseless" if i > 0 else "") + ("-inner" if i > 0 and post_f else ""))
+            if post_f and ok:
+                tail = cls(P(run_f + post_f), "r", allow_baseless=True)
+                d_tail = H.dump(tail)
+                tail.close()
+                try:
+                    t2 = cls(P([sq] + post_f), "r", allow_baseless=True)
+                    d_t2 = H.dump(t2)
+                    t2.close()
+                    if d_t2 != d_tail:
+                        diff = sorted(p for p in set(d_t2) | set(d_tail) if d_t2.get(p) != d_tail.get(p))[:5]
+                        oracle.append(dict(kind="followup-patches-differ-on-merged", paths=diff, target=what))
+                except Exception as e:  # noqa: BLE001
+                    oracle.append(dict(kind="followup-patches-rejected-on-merged", error="%s: %s" % (type(e).__name__, str(e)[:200]), target=what))
+            try:
+                inplace = cls(P(pre_f + [sq] + post_f), "r")
+                d_in = H.dump(inplace)
+                inplace.close()
+                # what the chain shows with the merged container in place of the run is compared with
+                # the model (`squash`): it is the source view whenever the run starts at the base
+                out += sq_out + ["ok", H.show_dump(d_in)]
+                if i == 0 and d_in != d0:
+                    oracle.append(dict(kind="followup-patches-differ-on-merged", target=what, in_place=True))
+            except Exception as e:  # noqa: BLE001
+                oracle.append(dict(kind="merged-container-rejected-in-place-of-run", error="%s: %s" % (type(e).__name__, str(e)[:200]), target=what))
+                return dict(out=out, oracle=oracle, tags=tags, partial=True)
+
+        # refused when the set contains a stub: the stub of the source with 0..3 committed patches
+        # on top, in the session that made it and re-opened from disk in every legal way
+        if case["cls"] == "mf" and (case.get("stub") or case.get("stubset")):
+            spec = case.get("stubset") or dict(patches=[], reopen=["name"])
+            pairs = MU.stub_set_merges(tmp, files0[-1] + "mf.json", spec, oracle, tags, name=name)
+            out += [w for _, w in pairs]
             tags.append("stub-refusal")
         return dict(out=out, oracle=oracle, tags=tags)
     finally:
         shutil.rmtree(tmp, ignore_errors=True)
 
 
+def stub_guard_lines(case):
+    """the `guard` lines matching what `MU.stub_set_merges` tries (flags known statically)"""
+    if not (case["cls"] == "mf" and (case.get("stub") or case.get("stubset"))):
+        return []
+    spec = case.get("stubset") or dict(patches=[], reopen=["name"])
+    k = len(spec.get("patches") or [])
+    L = ["guard 1%s 0" % ("0" * a) for a in range(k + 1)]
+    for how in spec.get("reopen") or MU.STUB_OPENINGS:
+        L.append("guard 1%s 0" % ("0" * (k + 1 if how == "name-rw" else k)))
+    return L
+
+
 def lines(case):
     L = [H.op_line(op) for op in case["ops"]]
-    L += ["dump", "wf", "merge", "ncont", "dump"]
+    L += ["dump", "wf", "save", "merge", "ncont", "dump"]
     if case.get("follow"):
         L += ["patch"] + [H.op_line(op) for op in case["follow"]] + ["dump"]
+    run = squash_run(case)
+    if run is not None:
+        L += ["restore"]
+        if case.get("pre") == "live":
+            L += ["patch"]
+        L += ["squash %d %d" % run, "dump"]
+    L += stub_guard_lines(case)
     return L
 
 
@@ -255,22 +436,80 @@ def compare(case, ir, mo):
     return core.default_compare(case, dict(out=out), mo)
 
 
-def gen_cases(ctx):
+NAMES = ["rec", "rec", "r", "rec-a", "Rec2", "a-b-c", "x1"]
+EXIST = ["/a", "/b", "/a/b", "/a/a", "/c"]
+
+
+def _stub_spec(rng, npatch=None):
+    k = rng.randrange(0, 4) if npatch is None else npatch
+    patches = [[H.rand_op(rng, EXIST, allow_copy=False) for _ in range(rng.randrange(0, 3))] for _ in range(k)]
+    return dict(patches=patches, reopen=list(MU.STUB_OPENINGS))
+
+
+def _history_with(rng, nops, npatch):
+    """a random history with exactly `npatch` patch boundaries (npatch + 1 containers)"""
+    ops = [o for o in H.rand_history(rng, nops, boundary_p=0.0)]
+    for _ in range(npatch):
+        ops.insert(rng.randrange(1, len(ops) + 1), ["patch"])
+    return ops
+
+
+def sweep_cases(rng):
+    """systematic part: over short random histories with four containers, EVERY kind of merge
+    target, EVERY run i..j of the chain as the merged source, and stubs with 0..3 committed
+    patches re-opened in every legal way"""
+    cases = []
+    for cls in ("ih5", "mf"):
+        for t in TARGETS:
+            cases.append(dict(cls=cls, name=rng.choice(NAMES), ops=_history_with(rng, rng.randrange(3, 8), rng.randrange(1, 3)), follow=[], stub=False,
+                              pre=rng.choice([None, "live", "failed-commit"]), src_open=rng.choice(["name", "list"]), targets=[t]))
+        n = 4
+        for i in range(n):
+            for j in range(i, n):
+                if (i, j) == (0, n - 1):
+                    continue  # the whole record: the main merge
+                # squash = [a, b] with i = a % n, j = i + b % (n - i)
+                cases.append(dict(cls=cls, name=rng.choice(NAMES), ops=_history_with(rng, rng.randrange(6, 12), n - 1), follow=[], stub=False, pre=None,
+                                  squash=[i, j - i]))
+    for k in range(4):
+        cases.append(dict(cls="mf", name=rng.choice(NAMES), ops=_history_with(rng, rng.randrange(3, 8), rng.randrange(0, 2)), follow=[], stub=True,
+                          pre=None, stubset=_stub_spec(rng, k)))
+    return cases
+
+
+def gen_cases(ctx, sweep=True):
     rng = ctx.rng
     n = 40 if ctx.quick else 800
-    cases = []
+    cases = sweep_cases(rng) if sweep else []
     for i in range(n):
         ops = H.rand_history(rng, rng.randrange(4, 26), boundary_p=rng.choice([0.1, 0.2, 0.35]))
         follow = H.rand_history(rng, rng.randrange(1, 8), boundary_p=0.15) if rng.random() < 0.7 else []
-        cases.append(dict(cls=rng.choice(["ih5", "mf"]), ops=ops, follow=follow, stub=rng.random() < 0.3,
-                          pre=rng.choice([None, None, "failed-commit", "discard", "live"])))
+        c = dict(cls=rng.choice(["ih5", "mf"]), ops=ops, follow=follow, stub=rng.random() < 0.3,
+                 pre=rng.choice([None, None, "failed-commit", "discard", "live"]))
+        c["name"] = rng.choice(NAMES)
+        c["src_open"] = rng.choice(["name", "name", "list", "reversed"])
+        if rng.random() < 0.5:
+            c["targets"] = rng.sample(TARGETS, rng.randrange(1, 4))
+        if rng.random() < 0.6:
+            c["squash"] = [rng.randrange(64), rng.randrange(64)]
+        if c["cls"] == "mf" and rng.random() < 0.4:
+            c["stubset"] = _stub_spec(rng)
+        cases.append(c)
     return cases
 
 
 def run(ctx):
     ctx.rule = ("random histories (set/grp/del/sattr/dattr/copy/move over 3 colliding keys, depth<=3) with patch boundaries at random positions on real "
-                "IH5Record / IH5MFRecord; merge; follow-up patches; non-trivial = >=3 containers, contains delete, has follow-up patches, stub refusal")
+                "IH5Record / IH5MFRecord (record names of several shapes; source opened by name, by file list, by file list in reverse order, read-only or "
+                "as a live r+ handle); merge into a fresh directory and into targets of every kind (own record path, own base file, an existing other "
+                "record, prefix / extension of the own name in the own directory, an invalid name); follow-up patches; every run i..j of the chain "
+                "(allow_baseless) merged and used in place of the run; stub of the source with 0..3 committed patches, merged in-session and re-opened "
+                "by name / file list / reversed file list / r+; non-trivial = >=3 containers, contains delete, has follow-up patches, stub refusal, "
+                "hostile target, baseless run")
     ctx.assumptions += ["h5py implements the flat tree semantics", "sha256 of files detects on-disk changes"]
+    ctx.exhaustive_spaces += ["merge target kinds (9) x record class (2) on short random histories",
+                              "runs i..j of a four-container chain (9 proper runs) x record class (2)",
+                              "stub + k committed patches, k = 0..3, x 4 ways of re-opening + in-session"]
     cases = core.load_corpus(ID) + gen_cases(ctx)
     ctx.correspond("merge-model", MOD, cases, lines, "drv_mrg", compare=compare, timeout=120)
 
@@ -287,13 +526,41 @@ def shrink(ctx, case, detail):
             if "timeout" in r:
                 return [dict(kind="does-not-terminate")] if want == "does-not-terminate" else []
             return [d for d in r.get("ok", {}).get("oracle", []) if d.get("kind") == want]
+
+        def attempt(c2):
+            nonlocal case
+            if c2 != case and hit(c2):
+                case = c2
+                return True
+            return False
         if hit(case):
+            # drop / simplify the optional stages first
+            for k in ("targets", "squash", "stubset", "src_open", "name"):
+                if case.get(k) is not None:
+                    attempt({a: b for a, b in case.items() if a != k})
+            if case.get("stub") and not case.get("stubset"):
+                attempt(dict(case, stub=False))
+            if case.get("pre"):
+                attempt(dict(case, pre=None))
+            if len(case.get("targets") or []) > 1:
+                for t in list(case["targets"]):
+                    if attempt(dict(case, targets=[t])):
+                        break
+            if case.get("stubset"):
+                sp = case["stubset"]
+                for how in list(sp.get("reopen") or MU.STUB_OPENINGS):
+                    if attempt(dict(case, stubset=dict(sp, reopen=[how]))):
+                        break
+                sp = case["stubset"]
+                while len(sp.get("patches") or []) > 0 and attempt(dict(case, stubset=dict(sp, patches=sp["patches"][:-1]))):
+                    sp = case["stubset"]
+                sp = case["stubset"]
+                attempt(dict(case, stubset=dict(sp, patches=[[] for _ in sp.get("patches") or []])))
             if case.get("follow"):
-                if hit(dict(case, follow=[])):
-                    case = dict(case, follow=[])
-                else:
+                if not attempt(dict(case, follow=[])):
                     case = dict(case, follow=core.ddmin(case["follow"], lambda f: hit(dict(case, follow=f)), max_tests=40))
-            case = dict(case, ops=core.ddmin(case["ops"], lambda o: hit(dict(case, ops=o)), max_tests=80))
+            if not attempt(dict(case, ops=[])):
+                case = dict(case, ops=core.ddmin(case["ops"], lambda o: hit(dict(case, ops=o)), max_tests=80))
             ds = hit(case)
             if ds:
                 detail = ds[0]
